@@ -349,7 +349,7 @@ def rule_filter(ctx):
         if lits and counts and "labels" in lits[0].fields:
             res.ok()
         else:
-            res.violate("%s : counts-not-stored" % key, "the label counts stored with the filtered targets are not the ones accumulated while filtering", fn_loc(fn))
+            res.undecided("%s : counts-not-stored" % key, "no CountedTargets literal fed by the counts of this loop in this function (assembled elsewhere? fail closed)", fn_loc(fn))
     return res.finish(8)
 
 
